@@ -38,7 +38,7 @@ static int enc(const struct cstl_slist_node *p)
 }
 static int cmp(const void *a, const void *b, void *p)
 {
-    (void)p;
+    e_check_priv(p);
     return ((const struct el *)a)->val - ((const struct el *)b)->val;
 }
 static void drv_setup(int argc, char **argv)
@@ -86,7 +86,7 @@ static void rescan(void)
 static int cb_count, cb_stop;
 static int visit_cb(void *e, void *p)
 {
-    (void)p;
+    e_check_priv(p);
     cb_count++;
     ev_add("%d", id_of_el(e));
     return (cb_stop && cb_count == cb_stop) ? 100 + cb_stop : 0;
@@ -108,13 +108,13 @@ static void drv_apply(const vop_t *op, jb_t *res)
     case 4: cstl_slist_insert_after(&L[a[0]], &pool[a[1]], &pool[a[2]]); jb_puts(res, ",\"ret\":0"); break;
     case 5: jb_printf(res, ",\"ret\":%d", id_of_el(cstl_slist_erase_after(&L[a[0]], &pool[a[1]]))); break;
     case 6: cstl_slist_reverse(&L[a[0]]); jb_puts(res, ",\"ret\":0"); break;
-    case 7: cstl_slist_sort(&L[a[0]], cmp, NULL); jb_puts(res, ",\"ret\":0"); break;
+    case 7: cstl_slist_sort(&L[a[0]], cmp, E_PRIV); jb_puts(res, ",\"ret\":0"); break;
     case 8: cstl_slist_concat(&L[a[0]], &L[a[1]]); jb_puts(res, ",\"ret\":0"); break;
     case 9: cstl_slist_swap(&L[a[0]], &L[a[1]]); jb_puts(res, ",\"ret\":0"); break;
     case 11: {
         int r;
         cb_count = 0; cb_stop = a[1];
-        r = cstl_slist_foreach(&L[a[0]], visit_cb, NULL);
+        r = cstl_slist_foreach(&L[a[0]], visit_cb, E_PRIV);
         jb_printf(res, ",\"ret\":%d", r);
         break;
     }
